@@ -1,4 +1,5 @@
-From DV Require Import Objects.
+From DV Require Import Objects TimeEntry.
 Require Extraction.
 Require Import ExtrOcamlBasic.
-Extraction "model.ml" crun cache_init format_message parse_message serialize_tree tree_sorted py_parse_tree dec parse_dec.
+Extraction "model.ml" crun cache_init format_message parse_message serialize_tree tree_sorted py_parse_tree dec parse_dec
+  format_timezone parse_timezone format_time_entry parse_time_entry.
